@@ -65,6 +65,13 @@ PROPS = {
                      "tick.reclaimed", "tick.recheck_skipped", "getmut.hit"],
         "assumptions": CACHE_ASSUME + ["the clock is monotone (virtual clock hook in ttl.rs); time is nanoseconds, so every placement relative to second boundaries is a value of `now`"],
     },
+    "C05": {
+        "module": "StrettoModel.Props.C05",
+        "jobs": [cache_job(r"\.(store|expiry|policy|callbacks|len)$", extra=["--w-ttl", "80"])],
+        "branches": ["tick.reclaimed", "tick.recheck_skipped", "tick.idle", "insert.ttl", "insert.update", "remove.resident"],
+        "assumptions": CACHE_ASSUME + ["the tick period (crossbeam tick / async-io Timer) is environment: ticks are placed by the schedule, with a virtual nanosecond clock",
+                                       "that every resident TTL entry is filed in the bucket of its deadline is checked after every step by comparing the bucket snapshot with the model and by the sweep-completeness monitor; a Lean proof of that bucket invariant is not part of this check yet"],
+    },
     "C09": {
         "module": "StrettoModel.Props.C09",
         "jobs": [cache_job(r"\.(store|expiry|ret|callbacks|buffer)$", extra=["--w-ttl", "50"])],
